@@ -250,7 +250,7 @@ pub fn gen(rng: &mut Rng, miri: bool) -> ASet {
     ASet { meta, clips, sets }
 }
 
-pub const REQUIRED: &[&str] = &["every_single_slot", "no_sets", "empty_set", "full_set", "unlabelled_set", "only_bit_31", "only_group_7", "poisoned_by_failing_calls_first"];
+pub const REQUIRED: &[&str] = &["every_single_slot", "no_sets", "empty_set", "full_set", "unlabelled_set", "only_bit_31", "only_group_7", "poisoned_by_failing_calls_first", "set_count_around_256_1024_4096"];
 
 pub fn run(cx: &mut Ctx) {
     cx.require(REQUIRED);
@@ -311,6 +311,35 @@ pub fn run(cx: &mut Ctx) {
             b.sets.push(t);
             check(c, &b, "single_slot");
         });
+    }
+    if !miri {
+        // thresholds: set counts at and around 256 / 1024 / 4096
+        for count in [255usize, 256, 257, 1023, 1024, 1025, 4095, 4096, 4097] {
+            cx.case("set_count_thresholds", |c| {
+                c.sit("set_count_around_256_1024_4096");
+                let mut rng = c.rng.clone();
+                let mut a = gen(&mut rng, true);
+                let protos: Vec<Vec<Option<String>>> = (0..5)
+                    .map(|k| {
+                        let mut s = empty_set(None);
+                        for i in 1..257 {
+                            if (i * 7 + k) % (9 + k * 17) == 0 {
+                                s[i] = Some(format!("c{}", i % 10));
+                            }
+                        }
+                        s
+                    })
+                    .collect();
+                a.sets = (0..count)
+                    .map(|k| {
+                        let mut s = protos[k % protos.len()].clone();
+                        s[0] = if k % 11 == 0 { None } else { Some(format!("AS_{}", k)) };
+                        s
+                    })
+                    .collect();
+                check(c, &a, "set_count_thresholds");
+            });
+        }
     }
     let n = cx.a.n(40_000, 400_000);
     for _ in 0..n {
